@@ -10,6 +10,10 @@ def _num(x):
     """JSON-able exact representation of a number (float.hex keeps every bit)."""
     if x is None:
         return None
+    if isinstance(x, np.ndarray):
+        if x.size != 1:
+            return [_num(v) for v in x.ravel()]
+        x = x.ravel()[0]
     if isinstance(x, (bool, np.bool_)):
         return bool(x)
     if isinstance(x, (int, np.integer)):
